@@ -31,6 +31,8 @@ for m, r in res.items():
     if os.path.exists(meta):
         d = json.load(open(meta)); d["detected_by"] = r["detected_by"]; d["checked_with"] = "tools/matrix.sh (quick tier, seed 0): " + ", ".join(f"{c}: exit {x['exit']}, {x['violation_lines']} VIOLATION lines" for c, x in r["runs"].items())
         json.dump(d, open(meta, "w"), indent=1)
-json.dump(res, open("/verif/seeded/matrix.json", "w"), indent=1)
+prev = json.load(open("/verif/seeded/matrix.json")) if os.path.exists("/verif/seeded/matrix.json") else {}
+prev.update(res)
+json.dump(collections.OrderedDict(sorted(prev.items())), open("/verif/seeded/matrix.json", "w"), indent=1)
 print("caught:", sum(1 for r in res.values() if r["detected_by"]), "of", len(res))
 PY
